@@ -23,6 +23,7 @@ ASSUME = [
     "Kani checks overflow as the dev/test profile does; release-profile wrap-around is covered by the value oracle",
     "model (num_*_i_big only): num-bigint's long division is not executed; its four entry points (biguint::division::{div_rem, div_rem_ref, div_rem_digit, rem_digit}) are replaced by an exact model valid for dividend magnitude < 2 * divisor magnitude (quotient digit 0 or 1), the operand region of those harnesses; a cover witnesses that the division is reached",
     "rational harnesses: `Ratio::new` is replaced by its sign normalisation only (operands are coprime by construction, the gcd loops are skipped); num_expt_rational_i: num-bigint's big-integer power is a recording stub (which path is taken is checked, the big value is not)",
+    "E3m (oparm): which callees an arm reaches per operand kind is read from MIR; WHAT the arm does with their results (e.g. negating a comparison) is not interpreted -- the native differential replay (literal / two-local forms against the generic procedure, 16 probe operands of every number kind) decides a sat answer; the fused LTEIMMEDIATEIF jump targets and the native tier are outside",
     "E3k (imm): only payload sites whose operand is computed from a literal token's integer payload are interpreted; comparisons of that value with constants are the only branch conditions kept; builds with the native tier (jit2) do not emit these opcodes",
     "E3c (kinds:numeric-kernels): only explicit panic sites (panic!/unreachable!/todo!) of multiply_two / add_two / add_two_fallible / negate, operands restricted to the six number kinds; paths through branches other than kind / integer-payload tests are not interpreted",
 ]
@@ -112,6 +113,7 @@ def kernel_kinds(run):
     c07.kinds_obligations(run, only_kernels=True)
     cmp_obligation(run)
     imm_obligation(run)
+    oparm_obligation(run)
 
 
 def cmp_obligation(run):
@@ -162,6 +164,56 @@ def cmp_obligation(run):
     json.dump({"property": run.pid, "kind": "cmp", "what": what, "call": call, "observed": obs, "how": "./check %s --replay <this file>" % run.pid}, open(path, "w"), indent=1)
     run.violation("cmp:%s-%s" % (a, b), "%s; natively: %s: %s" % (what, call, obs[:200]), path)
     run.ob(oid, "fail", note=obs[:200], **common)
+
+
+def oparm_obligation(run):
+    """E3m: every number kind that reaches a specialised arithmetic / comparison opcode arm goes through an operation the
+    harnesses decide (lib/p_oparms.py)"""
+    import os, re, json, shutil, subprocess, time
+    import ws, p_oparms, p_kinds
+    oid = "oparm:specialised-opcodes-delegate-to-the-decided-operations"
+    M = getattr(run, "_mir", None)
+    t0 = time.time()
+    try:
+        kinds = p_kinds.variants(os.path.join(M["wsdir"], "crates", "steel-core", "src"))
+        r = p_oparms.analyse(open(M["out"]).read(), open(os.path.join(M["wsdir"], "crates", "steel-gen", "src", "opcode.rs")).read(), kinds)
+    except Exception as ex:
+        run.ob(oid, "inconclusive", reason="extraction failed: %s" % str(ex)[-300:], engine="mir-smt")
+        return
+    common = dict(engine="mir-smt/z3", wall_s=round(time.time() - t0, 1), solver_s=round(r["dt"], 3), solver_checks=len(r["table"]))
+    run.samples.append({"engine": "mir-smt", "query": "exists (opcode, number kind): the arm of VmCore::vm for the opcode, followed with the operand's kind known, calls no operation of the opcode's family (generic primitive / PartialOrd on SteelVal / checked machine operation)",
+                        "opcodes": r["opcodes"], "arms": r["info"], "callees per (opcode, kind)": {k: v for k, v in list(r["table"].items())[:60]}})
+    run.functions.append("steel_vm::vm::VmCore::vm: arms of %s (callees per operand kind, MIR)" % ", ".join(r["opcodes"]))
+    if r["res"] == "error":
+        run.ob(oid, "inconclusive", reason="solver error", **common)
+        return
+    if r["res"] == "unsat":
+        run.ob(oid, "pass", nonvacuous=True, note="%d opcodes x 5 number kinds: each reaches an operation of its family" % len(r["opcodes"]), **common)
+        return
+    what = "the arm(s) %s answer without calling an operation of the opcode's family" % ", ".join("%s for %s" % b for b in r["bad"][:4])
+    try:
+        shutil.copy(os.path.join(ws.VERIF, "harness", "arity_replay.rs"), os.path.join(M["wsdir"], "crates", "steel-core", "tests", "verif_arity_replay.rs"))
+        p = subprocess.run(["cargo", "test", "--offline", "-p", "steel-core", "--no-default-features", "--features", ws.FEATURES,
+                            "--test", "verif_arity_replay", "--target-dir", os.path.join(M["root"], "tn"), "--", "oparm_replay", "--exact", "--nocapture"],
+                           cwd=M["wsdir"], env=M["env"], capture_output=True, text=True, timeout=2400)
+        m = re.search(r"OBSERVED: (.*)", p.stdout + p.stderr)
+    except Exception as ex:
+        run.ob(oid, "inconclusive", reason="replay failed: %s" % str(ex)[-300:], **common)
+        return
+    if not m:
+        run.ob(oid, "inconclusive", reason="solver: %s; the specialised and the generic forms agreed on every probe natively" % what, **common)
+        return
+    d = os.path.join(ws.VERIF, "replays", run.pid)
+    os.makedirs(d, exist_ok=True)
+    path = os.path.join(d, "oparm.json")
+    json.dump({"property": run.pid, "kind": "oparm", "what": what, "observed": m.group(1), "how": "./check %s --replay <this file>" % run.pid}, open(path, "w"), indent=1)
+    key = "oparm:%s" % "+".join(sorted({b[0] for b in r["bad"]}))
+    if run.is_known(key):
+        run.known_hit(key, run.known[(run.pid, key)] + " -- " + m.group(1)[:200])
+        run.ob(oid, "known", nonvacuous=True, **common)
+    else:
+        run.violation(key, "%s; natively: %s" % (what, m.group(1)[:300]), path)
+        run.ob(oid, "fail", note=m.group(1)[:200], **common)
 
 
 def imm_obligation(run):
@@ -219,12 +271,12 @@ def imm_obligation(run):
 def replay(pid, path):
     import json
     payload = json.load(open(path))
-    if payload.get("kind") in ("imm", "cmp"):
+    if payload.get("kind") in ("imm", "cmp", "oparm"):
         import os, re, shutil, subprocess, ws
         wsdir = ws.prepare("c10replay", [])
         root = os.path.dirname(wsdir)
         shutil.copy(os.path.join(ws.VERIF, "harness", "arity_replay.rs"), os.path.join(wsdir, "crates", "steel-core", "tests", "verif_arity_replay.rs"))
-        test, env = ("imm_replay", {"VERIF_IMM_LIT": str(payload["literal"])}) if payload["kind"] == "imm" else ("kinds_replay", {"VERIF_KINDS_CALL": payload["call"]})
+        test, env = ("imm_replay", {"VERIF_IMM_LIT": str(payload["literal"])}) if payload["kind"] == "imm" else (("oparm_replay", {}) if payload["kind"] == "oparm" else ("kinds_replay", {"VERIF_KINDS_CALL": payload["call"]}))
         p = subprocess.run(["cargo", "test", "--offline", "-p", "steel-core", "--no-default-features", "--features", ws.FEATURES,
                             "--test", "verif_arity_replay", "--target-dir", os.path.join(root, "tn"), "--", test, "--exact", "--nocapture"],
                            cwd=wsdir, env=dict(os.environ, CARGO_NET_OFFLINE="true", **env), capture_output=True, text=True)
